@@ -41,6 +41,10 @@ func M(name string, oneofs []string, fields ...spec.Field) spec.Msg {
 		}
 		if fields[i].Comment == "" && !fields[i].Embed {
 			fields[i].Comment = " " + fields[i].Name + " is a field of " + name + "\n"
+			if i%3 == 1 {
+				// the word "package" followed by text, as the package clause of a Go file has it
+				fields[i].Comment = " " + fields[i].Name + " is a field of " + name + " in package pk\n package " + name + "\n"
+			}
 		}
 	}
 	return spec.Msg{Name: name, Oneofs: oneofs, Fields: fields, Comment: " " + name + " message\n"}
@@ -236,6 +240,12 @@ func Atlas() []*spec.Program {
 		// near-miss keys: only an exact key is a suffix entry / a custom type entry
 		cfg.Suffixes = map[string]string{"CustomBool": "BoolSpecial", "IntList": "DecoyA", "pkg.IntList": "DecoyB", "custombool": "DecoyCase", "Custom": "DecoyPrefix"}
 		cfg.CustomTypes = map[string]string{"Customs.ByConfig": "StringCustom", "Customs.ByConfigList": "some/pkg.IntList", "ByConfig": "DecoyType", "Customs.Plain.": "DecoyType", "customs.plain": "DecoyType"}
+		cfg.ComputedFields = []string{"Customs.CustP", "Customs.ByConfig"}
+		cfg.RequiredFields = []string{"Customs.CustStr"}
+		cfg.SensitiveFields = []string{"Customs.CustList", "Customs.ByConfig"}
+		cfg.UseStateForUnknownByDefault = true
+		cfg.Validators = map[string][]string{"Customs.CustV": {spec.SupportPkg + `.V("custom")`}}
+		cfg.PlanModifiers = map[string][]string{"Customs.ByConfigList": {spec.SupportPkg + `.PM("custom")`}}
 		out = append(out, prog("a_custom", append([]string{"C17"}, convProps...), cfg, nil, root))
 	}
 	// --- json tags and name overrides
@@ -254,6 +264,10 @@ func Atlas() []*spec.Program {
 			F("Subs", "msg:Leaf", rep()),
 			F("HTTPServerURL", "string"),
 			F("lower_snake", "string"),
+			F("x_y", "string"),
+			F("port_a_b", "int32"),
+			F("port_ab", "int32"),
+			F("a", "bool"),
 		)
 		cfg := baseConfig("Names")
 		cfg.NameOverrides = map[string]string{"Names.ByPath": "by_path_override", "Names.ByKey": "by_key_override", "Names.Sub.LeafName": "only_in_sub", "Leaf.Other": "everywhere",
@@ -272,6 +286,10 @@ func Atlas() []*spec.Program {
 			F("Multi", "string", comment(" line one\n line two\n")),
 		)
 		root.Fields[11].Comment = ""
+		for i, n := range []int32{1, 2, 7, 4, 3, 12, 13, 20, 21, 22, 30, 31, 9} {
+			root.Fields[i].Num = n // gaps and numbers out of declaration order
+		}
+		leaf.Fields[0].Num, leaf.Fields[1].Num, leaf.Fields[2].Num = 5, 1, 3
 		cfg := baseConfig("Flags")
 		// besides the real keys, near-miss keys which must not match anything: bare field names, paths
 		// without the root, other letter case, prefixes
